@@ -2,6 +2,7 @@
 # usage: tools/seedtest.sh <patch.diff> <Cxx[,Cyy...]>  — apply a patch to /repo, run the quick checks, restore.
 patch=$1; props=$2
 cd /repo || exit 2
+if [ -n "$(git -C /repo status --porcelain)" ]; then echo 'REFUSING: /repo has uncommitted changes (they would be lost)'; exit 5; fi
 trap 'git -C /repo checkout -- . 2>/dev/null' EXIT
 git -C /repo apply "$patch" || { echo "PATCH DOES NOT APPLY"; exit 3; }
 for p in ${props//,/ }; do
